@@ -385,7 +385,7 @@ func vcRunC13(t *vcTrial, cfg vc13Cfg) {
 				break
 			}
 			vcWaitPoint(mark, vpFinalizerAfterClose, rec.ID, 2*time.Second)
-			if n := len(audit.closesOf(rec.ID)); n != 1 {
+			if n := len(audit.closesOfRec(rec)); n != 1 {
 				t.Violate("C13", "descriptor_not_closed", "Shutdown returned nil; descriptor %d of an accepted connection was closed %d times", rec.FD, n)
 				break
 			}
